@@ -49,6 +49,7 @@ type c10R struct {
 	// real results only
 	Eof    bool   `json:"eof"`
 	ErrStr string `json:"errstr,omitempty"`
+	node   ipld.Node // GetNode only: the node that was returned
 }
 type c10P struct {
 	Wild  bool   `json:"wild"`
@@ -335,6 +336,7 @@ func c10Do(dm *DagModifier, ds ipld.DAGService, st *c10Step, ctxRead bool) (r c1
 		nd, err := dm.GetNode()
 		setErr(err)
 		if err == nil {
+			r.node = nd
 			b, err := c10ReadBack(ds, nd)
 			setErr(err)
 			r.Data = c10Syms(b)
@@ -427,6 +429,40 @@ func (t *c10RdTrack) stale(dm *DagModifier) bool {
 	return dm.read != nil && dm.read == t.rd && dm.wrBuf == nil && !dm.curNode.Cid().Equals(t.cid)
 }
 
+// c10Snap: a node returned by GetNode is a value -- it must keep reading back as the content it had
+// when it was returned (and keep its CID), whatever is written through the modifier afterwards.
+type c10Snap struct {
+	nd   ipld.Node
+	cid  cid.Cid
+	want []int
+	step int
+}
+
+// c10CheckSnaps re-reads the retained nodes.  Returns ("", false) if all are intact; else a
+// description and whether the damage has exactly the as-built shape of Dev_C10_GetNodeAliased:
+// modifyDag overwrites through the link objects that the returned copy shares with curNode, so the
+// node keeps its length and (cached) CID while bytes inside it become the bytes of a later version.
+func c10CheckSnaps(ds ipld.DAGService, snaps []c10Snap, later [][]int) (string, bool) {
+	for _, sn := range snaps {
+		got, err := c10ReadBack(ds, sn.nd)
+		if err == nil && c10EqInts(c10Syms(got), sn.want) && sn.nd.Cid().Equals(sn.cid) {
+			continue
+		}
+		what := fmt.Sprintf("the node returned by GetNode at step %d now reads back %v (err %v, cid unchanged: %v), it held %v",
+			sn.step, c10Syms(got), err, sn.nd.Cid().Equals(sn.cid), sn.want)
+		asBuilt := err == nil && len(got) == len(sn.want) && sn.nd.Cid().Equals(sn.cid)
+		for i := 0; asBuilt && i < len(got); i++ {
+			ok := int(got[i]) == sn.want[i]
+			for _, v := range later {
+				ok = ok || (i < len(v) && v[i] == int(got[i]))
+			}
+			asBuilt = ok
+		}
+		return what, asBuilt
+	}
+	return "", false
+}
+
 // c10Found is one disagreement with the file model that is exactly an as-built alternative.
 type c10Found struct {
 	step int
@@ -459,6 +495,9 @@ func c10RunOne(b *c10Beh, c c10Cfg) (found []c10Found, step int, what string) {
 	}
 	follow := false // false: expectations of the file model; true: follow track
 	var track c10RdTrack
+	var snaps []c10Snap
+	var later [][]int
+	aliasSeen := false
 	for i := range b.Steps {
 		st := &b.Steps[i]
 		track.after(dm)
@@ -495,6 +534,21 @@ func c10RunOne(b *c10Beh, c c10Cfg) (found []c10Found, step int, what string) {
 		}
 		if sameR {
 			doProbe()
+			if probe.Fail == "" {
+				later = append(later, probe.View)
+			}
+			if !aliasSeen {
+				if what, asBuilt := c10CheckSnaps(ds, snaps, later); what != "" {
+					if !asBuilt {
+						return found, i + 1, "after " + c10Desc(st) + ": " + what
+					}
+					found = append(found, c10Found{i + 1, "after " + c10Desc(st) + ": " + what, []string{"Dev_C10_GetNodeAliased"}})
+					aliasSeen = true
+				}
+			}
+			if st.Op == "GetNode" && real.node != nil && !real.Err {
+				snaps = append(snaps, c10Snap{real.node, real.node.Cid(), real.Data, i + 1})
+			}
 			if c10SameP(probe, expP) {
 				continue
 			}
